@@ -596,6 +596,8 @@ package store
 //@ -- handlers acknowledge with 201), leave the blob with an age not older than the start of the call, so the grace
 //@ -- period protects it until the manifest that needs it arrives
 //@ func (mru *memRepoUpload) Close() (err error)
+//@   -- C08: a session that has ceased to exist (cancelled, expired, evicted) is not closed into a blob: further use is refused
+//@   ensures [gone-session-never-becomes-a-blob]{C08} !old(mru.sessionID in mru.mr.uploads.entries) ==> err != nil
 //@   ensures [ack-is-recent]{C05,C01} err == nil ==> (digestNow(mru.d) in mru.mr.blobs) && mru.mr.blobs[digestNow(mru.d)] != nil &&
 //@             mru.mr.blobs[digestNow(mru.d)].m.mod >= old(clock())
 
